@@ -48,7 +48,9 @@ UK      == { Myst, Null, Bool(TRUE), Bool(FALSE), IntV(0), IntV(1), IntV(2), Int
 UV      == { Myst, Null, Bool(TRUE), IntV(5), Str(""), Str("ab"), Str("~b~"), EmptyArr, A1, A12, AA1, AD, Norm(ASD) }
 UX      == { Myst, IntV(7), Str("z"), A1 }                                            \* stored values
 UStr    == { "", "a", "ab", "a,b", ",a,", "a,,b", ",,", "aXaXa", "~,~", "aaa", "b" }
+           \cup (IF Tier = "thorough" THEN { "aaaa", ",", " ", "a b c", "~~", "a~b", ",,,", "aXa", "XaX", "abab", "aa,aa", "1,2,3", "\n", "a\nb" } ELSE {})
 UDelim  == { NoParam, Str(""), Str(","), Str(",,"), Str("a"), Str("aa"), Str("X"), IntV(1), Myst, Null, Bool(TRUE), A1 }
+           \cup (IF Tier = "thorough" THEN { Str("~"), Str("ab"), Str(" "), Str("aXa"), Str("\n"), Str("b"), Bool(FALSE), EmptyArr, NaN } ELSE {})
 UJoin   == { EmptyArr, AS, Norm(ASD), A1, Arr(<<Str("a"), IntV(1)>>, <<>>), Arr(<<Str("")>>, <<>>),
              Arr(<<Str("a"), Str(""), Str("b")>>, <<>>), Arr(<<Str("x"), Str("-")>>, <<>>), Arr(<<Str("a,b"), Str("")>>, <<>>),
              Arr(<<Str("a")>>, <<[k |-> [k |-> "str", s |-> "k"], v |-> IntV(1)]>>), Str("a"), Myst, IntV(1) }
@@ -59,9 +61,13 @@ UCastN  == { IntV(65), IntV(97), IntV(233), IntV(0), NZero, IntV(-1), Fin(4192),
              Big(1, "9223372036854776000") }
 UCastS  == { "", "0", "1", "11", "-11", "+11", "ff", "FF", "zz", "1.5", "-0", "12a", " 1", "1 ", "nan", "inf", "-inf",
              "Infinity", "1e1", ".5", "5.", ".", "-", "+", "0.1", "1_0", "~", "99999999999", "123456789012345678901" }
+           \cup (IF Tier = "thorough" THEN { "10", "101", "z", "Z", "g", "-ff", "+-1", "--1", "1e2", "1e-1", "2.5e1", "1e", "e1", "0x10", "1,0", "NaN", "INF",
+                                              "infinit", "+inf", "-nan", "0.5", "0.25", "0.125", "1.0", "-1.5", "007", "1 1", "2", "7", "9", "a", "A" } ELSE {})
 URadix  == { NoParam, IntV(2), IntV(10), IntV(16), IntV(36), IntV(37), IntV(1), IntV(0), IntV(-1), NZero, Fin(160),
              NaN, PInf, Huge, Big(1, "4294967298"), Str("10"), Myst, Null, Bool(TRUE), A1 }
-UTurn   == { IntV(0), NZero, IntV(1), IntV(-1), Fin(32), Fin(-32), Fin(96), Fin(-96), Fin(160), Fin(-160), Fin(16), Fin(-16),
+           \cup (IF Tier = "thorough" THEN { IntV(3), IntV(8), IntV(11), IntV(35), IntV(38), IntV(100), NInf, Fin(128 + 1), Big(-1, "4294967294"), Bool(FALSE), EmptyArr, Str("") } ELSE {})
+UTurnMore == { Fin(n) : n \in {2, -2, 31, -31, 33, -33, 64 * 7 + 32, -(64 * 7 + 32), 64 * 1000 + 1, 64 * 16777215, -64 * 16777215 + 63} }
+UTurn   == (IF Tier = "thorough" THEN UTurnMore ELSE {}) \cup { IntV(0), NZero, IntV(1), IntV(-1), Fin(32), Fin(-32), Fin(96), Fin(-96), Fin(160), Fin(-160), Fin(16), Fin(-16),
              Fin(48), Fin(-48), Fin(1), Fin(-1), Fin(63), Fin(-63), NaN, PInf, NInf, Huge, NHuge,
              Myst, Null, Bool(TRUE), Str("1"), A1 }
 
